@@ -6,10 +6,13 @@ package proxy
 
 import (
 	"fmt"
+	"os"
 	"sort"
+	"strings"
 	"testing"
 
 	"go.temporal.io/server/common/log"
+	"go.temporal.io/server/common/log/tag"
 	"google.golang.org/grpc/codes"
 	"google.golang.org/grpc/metadata"
 	"google.golang.org/grpc/status"
@@ -19,7 +22,38 @@ import (
 	"github.com/temporalio/s2s-proxy/vfshared"
 )
 
-func vfNoop() log.Logger { return log.NewNoopLogger() }
+func vfNoop() log.Logger {
+	if os.Getenv("VF_TRACE") != "" {
+		return vfTraceLogger{}
+	}
+	return log.NewNoopLogger()
+}
+
+// vfTraceLogger prints every log statement (debugging aid for replays: VF_TRACE=1).
+type vfTraceLogger struct{ prefix string }
+
+func (l vfTraceLogger) out(lvl, msg string, tags []tag.Tag) {
+	var sb strings.Builder
+	for _, t := range tags {
+		fmt.Fprintf(&sb, " %s=%v", t.Key(), t.Value())
+	}
+	fmt.Fprintf(os.Stderr, "[%s]%s %s%s\n", lvl, l.prefix, msg, sb.String())
+}
+func (l vfTraceLogger) Debug(msg string, tags ...tag.Tag)  { l.out("D", msg, tags) }
+func (l vfTraceLogger) Info(msg string, tags ...tag.Tag)   { l.out("I", msg, tags) }
+func (l vfTraceLogger) Warn(msg string, tags ...tag.Tag)   { l.out("W", msg, tags) }
+func (l vfTraceLogger) Error(msg string, tags ...tag.Tag)  { l.out("E", msg, tags) }
+func (l vfTraceLogger) DPanic(msg string, tags ...tag.Tag) { l.out("P", msg, tags) }
+func (l vfTraceLogger) Panic(msg string, tags ...tag.Tag)  { l.out("P", msg, tags) }
+func (l vfTraceLogger) Fatal(msg string, tags ...tag.Tag)  { l.out("F", msg, tags) }
+func (l vfTraceLogger) With(tags ...tag.Tag) log.Logger {
+	var sb strings.Builder
+	sb.WriteString(l.prefix)
+	for _, t := range tags {
+		fmt.Fprintf(&sb, " %s=%v", t.Key(), t.Value())
+	}
+	return vfTraceLogger{prefix: sb.String()}
+}
 
 type c15Case struct {
 	Policy       bool     `json:"policy"`        // an ACL policy is configured
